@@ -239,7 +239,7 @@ PROPS["C12"] = dict(
                "result (racing_writer_invisible), and a guarded flush never moves the latest pointer of an entity written since the snapshot (raced_pointer_written, key level; the guard is the regenerated fact "
                "rewriteLoop — its absence was defect D14, fixed); "
                "a compaction killed after any subset of its removals has lost nothing but versions, shows the same latest and pinned content and is completed by a second run to exactly the "
-               "undisturbed result (partial_compaction_invisible, spec level), and the real compactor is killed after its n-th flush in the fault runs.",
+               "undisturbed result (partial_compaction_invisible, spec level), and the real compactor is killed after its n-th flush in the fault runs. Reference keys shared by the versions of one batch are only given up by the last version of the batch (model rule and regenerated look-ahead fact; defect D34, fixed, was the opposite); string and single-element-array reference values are kept apart as reflect.DeepEqual does.",
     level_note="Trusted: Lean kernel, factgen, badger. `recorded` of a removed duplicate is replaced by its identical predecessor's and is not compared.",
 )
 
